@@ -1,5 +1,7 @@
 import WuffsVerif.Common.Line
 import WuffsVerif.Model.StdHash
+import WuffsVerif.Model.Sha256Fips
+import WuffsVerif.Model.StdDeflate
 import WuffsVerif.Model.StdSpecLzw
 import WuffsVerif.Model.StdSpecGzip
 /-! Line driver for C07 (std hashers and specification decoders).
@@ -16,6 +18,9 @@ import WuffsVerif.Model.StdSpecGzip
   dec gzip1 <hex>          first member only: `ok len= out= used=<bytes>`
   dec lzw <litwidth> <hex> GIF-flavour LZW: `ok len= out= used=` | `err truncated` | `err badcode`
   lzwenc <litwidth> <hex>  literal-only reference encoder -> hex
+  wdec deflate <hex>       the MIRROR of std/deflate (Model/StdDeflate.lean: decode_blocks … decode_huffman_slow), one
+                           transform_io call, closed source: `ok len= out= used=<source bytes consumed>` |
+                           `err #deflate:_<status with _ for spaces>`
 -/
 open WuffsVerif WuffsVerif.Line WuffsVerif.StdHash
 
@@ -69,13 +74,23 @@ def hashOp (codec : String) (parts : List (List UInt8)) : Option String :=
     some s!"sum={hexN 16 m} spec={if m == sp then "ok" else hexN 16 sp}"
   | "sha256" =>
     let m := (parts.foldl ShaHasher.update {}).checksum
-    let sp := sha256Spec whole
+    let sp := Sha256Fips.sha256 whole   -- FIPS 180-4 written from the standard (constants computed from the primes)
     let h (l : List UInt8) := if l.isEmpty then "-" else toHex l
     some s!"sum={h m} spec={if m == sp then "ok" else h sp}"
   | _ => none
 
+/-- a Wuffs status of package deflate as the C driver prints it -/
+def cStatus (msg : String) : String :=
+  "#deflate:_" ++ String.ofList ((msg.toList.drop 1).map (fun c => if c == ' ' then '_' else c))
+
 def c07Step (l : List String) : String :=
   match l with
+  | ["wdec", "deflate", hx] =>
+    match fromHex hx with
+    | some x => match StdDeflate.inflate x.toArray with
+      | .ok (o, n) => s!"ok {showOut o} used={n}"
+      | .error e => "err " ++ cStatus e
+    | none => "bad-op"
   | ["hash", codec, splits, hx] =>
     match parseSplits splits, fromHex hx with
     | some sz, some x => (hashOp codec (chunksOf sz x)).getD "bad-op"
